@@ -115,8 +115,14 @@ func loadGo(repo string, conf GoConfig, overlay map[string][]byte) (*GoProg, err
 			}
 		}
 	}
+	if !noRoles {
+		p.applyRoles()
+	}
 	return p, nil
 }
+
+// noRoles disables the renaming of locals to their reference names (only for generating the table).
+var noRoles bool
 
 func recvTypeName(e ast.Expr) string {
 	switch t := e.(type) {
